@@ -28,6 +28,10 @@ def run(m: Model, r: Report, tier: str) -> None:
     r.rule("R6", "identifier domain is range(start, end + 1) x sub-functions", floor=1)
     r.rule("R7", "PDU construction per scanned service (big-endian DID, RoutineControl sub-function byte, 7-bit limit for SecurityAccess)", floor=4)
     r.rule("R8", "the positive counter is incremented iff the reply is not a NegativeResponse", floor=1)
+    r.rule("R10", "replies for every identifier of the scanned range parse: the identifier / sub-function range helpers accept their whole closed range (0xFFFF, the default "
+           "end of the scan, included)", floor=3)
+    from sa.uds_rules import range_helpers_rule
+    range_helpers_rule(m, r, "R10")
     r.rule("R9", "skip maps: a bare outer key means 'all' - it is stored unconditionally and never replaced or extended by later listings", floor=3)
 
     ps = m.require_function(f"{SVC}.ServicesScanner.perform_scan")
